@@ -188,6 +188,8 @@ def gen_case(rng: random.Random):
     rs0 = rng.choice([1, 1, 5, 100, -3, -200, -999, 990, 9900])
     rstep = rng.choice([1, 1, 1, 2, 10])
     waters = rng.random() < 0.5
+    blank_ter = rng.choice(["none", "one", "one", "every2"])
+    blank_ter_last = rng.random() < 0.4
     models = rng.choice([0, 0, 0, 1, 2, 3])
     body = []
     nchunks = 0
@@ -238,6 +240,23 @@ def gen_case(rng: random.Random):
         if chain_mode in ("split", "repeat") and rng.random() < 0.5:
             body.append("TER")
             feats.add("TER")
+        # blank chain identifiers: the TER records alone delimit the chains (one TER between two chains and none at
+        # the end; TER after every chain; ...): Biomolecule.__init__ counts them before it assigns identifiers
+        if chain_mode == "blank" and blank_ter != "none" and ri < len(window) - 1 and ((blank_ter == "one" and ri == len(window) // 2 - 1 + (len(window) == 1)) or (blank_ter == "every2" and ri % 2 == 1)):
+            body.append("TER")
+            feats.add("blank-chain-TER:" + blank_ter)
+    if chain_mode == "blank" and blank_ter_last and body and body[-1] != "TER":
+        body.append("TER")
+        feats.add("blank-chain-TER-after-last")
+    # residue names that are fragments of the water names (A and T are nucleotides; HO, OH, WA ... unknown groups): a
+    # membership test on the water names written as a substring test would take them for waters
+    if rng.random() < 0.12:
+        frag = rng.choice(["A", "T", "H", "O", "W", "HO", "OH", "HW", "WA", "AT", "OHW", "HWA"])
+        victims = {l[17:27] for l in body if l.startswith(("ATOM", "HETATM"))}
+        if victims:
+            v = rng.choice(sorted(victims))
+            body = [set_cols(l, 17, 20, frag.rjust(3)) if l.startswith(("ATOM", "HETATM")) and l[17:27] == v else l for l in body]
+            feats.add("residue-name-fragment-of-water-name")
     if waters:
         wname = rng.choice(["HOH", "WAT"])
         wnum = None
